@@ -47,7 +47,8 @@ Fixpoint data_eqb (a b : data) : bool :=
   | _, _ => false
   end.
 
-Record cond := { c_type : N; c_status : N; c_obsgen : N }.
+Record cond := { c_type : N; c_status : N; c_obsgen : N;
+                 c_ok : bool }.   (* type, status, reason and message are all strings (template_reconciler.go:392-398) *)
 
 Record obj := {
   o_data : data;
@@ -104,10 +105,23 @@ Inductive ev :=
 (** The owner identity of the ObjectTemplate under study in the cache's owner sets. *)
 Definition me : N := 1.
 
+(** preflight.NamespaceEscalation.Check for an owner in namespace [tns] <> 0 and an object of a registered
+    kind ([nsd]: the kind is namespaced); true = violation.
+    namespace_escalation_protection.go as of aa47ee3: a foreign namespace is a violation (:43-49, returns);
+    otherwise the scope of the kind decides, whether or not a namespace is given (:51-68). *)
+Definition ns_escalation (tns : N) (k : key) (nsd : bool) : bool :=
+  (negb (k_ns k =? 0) && negb (k_ns k =? tns)) || negb nsd.
+
+(** The check as it was before aa47ee3: it returned as soon as the object named a namespace, so the scope
+    of the kind was only looked at for objects without namespace. Kept for C18_v0_namespace_bound_refuted. *)
+Definition ns_escalation_v0 (tns : N) (k : key) (nsd : bool) : bool :=
+  if negb (k_ns k =? 0) then negb (k_ns k =? tns) else negb nsd.
+
 Section Model.
   Context {code : Type}.
   Variable render : code -> data -> N -> rres.   (* config -> environment -> result *)
   Variable scope_of : N -> option bool.          (* RESTMapper: None = not registered, Some true = namespaced *)
+  Variable esc : N -> key -> bool -> bool.       (* NamespaceEscalation for a namespaced owner: [ns_escalation] *)
   Variable iv_res iv_opt : N.                    (* ControllerConfig.ResourceRetryInterval / OptionalResourceRetryInterval *)
 
   Record tmpl := {
@@ -193,9 +207,7 @@ Section Model.
         orefs                                                       (* noownerreferences.go:141 *)
         || (if tns =? 0
             then nsd && (k_ns k =? 0)                               (* empty_namespace_no_default.go:199-219 *)
-            else if negb (k_ns k =? 0)
-                 then negb (k_ns k =? tns)                          (* namespace_escalation_protection.go:89-96: returns here *)
-                 else negb nsd)                                     (* namespace_escalation_protection.go:99-113 *)
+            else esc tns k nsd)                                     (* namespace_escalation_protection.go:29-68 *)
     end.
 
   (** ** Sources *)
@@ -225,14 +237,15 @@ Section Model.
           end
       end.
 
-  (** copySourceItems / copySourceItem (:243-292): None = the key is not in the source (jsonpath error) *)
+  (** copySourceItems / copySourceItem (:243-292): None = the key is not in the source (jsonpath error, :272)
+      or the destination is empty / has no leading dot (destination 0; JSONPathFormatError, :283-285). *)
   Fixpoint copy_items (items : list (N * N)) (o : obj) (cfg : data) : option data :=
     match items with
     | [] => Some cfg
     | (k, d) :: r =>
         match dlookup k (o_data o) with
         | None => None
-        | Some v => copy_items r o (dset d v cfg)
+        | Some v => if d =? 0 then None else copy_items r o (dset d v cfg)
         end
     end.
 
@@ -294,13 +307,19 @@ Section Model.
     | (ty', st') :: r => if ty' =? ty then (ty, st) :: r else (ty', st') :: set_cond ty st r
     end.
 
-  (** updateStatusConditionsFromOwnedObject (:354-402) *)
-  Definition copy_conds (t : tmpl) (ex : obj) : list (N * N) :=
+  (** updateStatusConditionsFromOwnedObject (:354-410); None = "malformed condition" (BadRequest, :392-398) *)
+  Fixpoint copy_conds_loop (gen : N) (cs : list cond) (acc : list (N * N)) : option (list (N * N)) :=
+    match cs with
+    | [] => Some acc
+    | c :: r =>
+        if negb (gen =? c_obsgen c) then copy_conds_loop gen r acc               (* :387-390 outdated: skipped *)
+        else if c_ok c then copy_conds_loop gen r (set_cond (c_type c) (c_status c) acc)
+        else None                                                                (* :392-398 *)
+    end.
+  Definition copy_conds (t : tmpl) (ex : obj) : option (list (N * N)) :=
     if match o_sobs ex with Some g => negb (g =? t_gen t) | None => false end    (* :357-366 *)
-    then t_conds t
-    else fold_left (fun cs c => if o_gen ex =? c_obsgen c                        (* :387-390 *)
-                                then set_cond (c_type c) (c_status c) cs else cs)
-                   (o_conds ex) (t_conds t).
+    then Some (t_conds t)
+    else copy_conds_loop (o_gen ex) (o_conds ex) (t_conds t).
 
   Definition new_target (body : data) : obj :=
     {| o_data := body; o_label := true; o_ctrl := me; o_gen := 1; o_sobs := None; o_conds := [] |}.
@@ -314,7 +333,7 @@ Section Model.
   (** ** templateReconciler.Reconcile (:70-136) with the deferred
       setObjectTemplateConditionBasedOnError (:404-432).
       Result: world, events, in-memory template, RequeueAfter, error class
-      (0 none, 1 yaml, 2 creation, 3 update). *)
+      (0 none, 1 yaml, 2 creation, 3 update, 4 malformed condition on the existing target). *)
   Definition reconcile_tmpl (w : world) (t : tmpl) : world * list ev * tmpl * N * N :=
     let '(w1, e1, vr) := get_values w (t_ns t) (t_sources t) [] false in         (* :77-78 *)
     match vr with
@@ -335,12 +354,16 @@ Section Model.
                 | r => (w2, e1 ++ [EWatch (k_kind k); ECreate k body r], t, rq, 2)
                 end
             | Some ex =>
-                let t1 := set_conds t (copy_conds t ex) in                       (* :112 *)
-                match update_res k with                                          (* :121 *)
-                | WOk => (with_store w2 (upsert (nkey k) (updated_target ex body) (w_store w2)),
-                          e1 ++ [EWatch (k_kind k); EUpdate k body WOk],
-                          set_invalid (set_ctrlof t1 (Some k)) 0, rq, 0)         (* :125-135 *)
-                | r => (w2, e1 ++ [EWatch (k_kind k); EUpdate k body r], t, rq, 3)
+                match copy_conds t ex with                                       (* :112-114 *)
+                | None => (w2, e1 ++ [EWatch (k_kind k)], t, rq, 4)
+                | Some cs =>
+                    let t1 := set_conds t cs in
+                    match update_res k with                                      (* :121 *)
+                    | WOk => (with_store w2 (upsert (nkey k) (updated_target ex body) (w_store w2)),
+                              e1 ++ [EWatch (k_kind k); EUpdate k body WOk],
+                              set_invalid (set_ctrlof t1 (Some k)) 0, rq, 0)     (* :125-135 *)
+                    | r => (w2, e1 ++ [EWatch (k_kind k); EUpdate k body r], t, rq, 3)
+                    end
                 end
             end
         end
@@ -453,7 +476,8 @@ Section Model.
   Definition src_bad (tns : N) (s : source) : bool :=
     oob tns (s_kind s, s_ns s, s_name s) || malformed tns (s_kind s, s_ns s, s_name s).
   Definition tgt_bad (tns : N) (k : key) (orefs : bool) : bool := orefs || oob tns k || malformed tns k.
-  (** The shape the namespace check lets through: a cluster-scoped kind named with the template's own namespace. *)
+  (** The shape the namespace check let through before aa47ee3: a cluster-scoped kind named with the
+      template's own namespace (only used to name that shape in reports and in the v0 refutation). *)
   Definition rootown (tns : N) (k : key) : bool := negb (tns =? 0) && is_cluster (k_kind k) && (k_ns k =? tns).
   Definition src_rootown (tns : N) (s : source) : bool := rootown tns (s_kind s, s_ns s, s_name s).
 
@@ -499,6 +523,8 @@ Section Model.
     flat_map (fun e => match e with ECreate k d WOk | EUpdate k d WOk => [(k, d)] | _ => [] end) evs.
   Definition label_patches (evs : list ev) : list key :=
     flat_map (fun e => match e with EPatchLabel k => [k] | _ => [] end) evs.
+  Definition watch_calls (evs : list ev) : list N :=
+    flat_map (fun e => match e with EWatch kd => [kd] | _ => [] end) evs.
 End Model.
 
 Arguments tmpl : clear implicits.
